@@ -271,7 +271,7 @@ def main(tier, replay_obj=None):
                         "distinct = distinct end-of-execution observations (delivered counts, queue length, outcome) "
                         "plus executions taking a non-default schedule")
     cfgs = CONFIGS[tier]
-    cap = 100 if tier == "quick" else 1500
+    cap = 300 if tier == "quick" else 1500
     outs = runner.pmap(run_config, [(c, runner.seed(), cap) for c in cfgs])
     for name, st, samples, viols in outs:
         class _E(object):
